@@ -299,6 +299,7 @@ theorem every_circuit_has_a_schedule {c : Dag} {P : Reg → List NodeId} (g : Go
 
 /-- all metrics of `c` equal their op-list specifications on the operation list `ops` -/
 structure MetricsMeetSpec (c : Dag) (ops : List Op) : Prop where
+  emitters : Metrics.emitterCount c = (c.nodeIds.filter (fun n => match n with | .inp r => r.ty = .e | _ => false)).length
   cnot : Metrics.cnotCount c = Spec.cnotCount ops
   measure : Metrics.measureCount c = Spec.measureCount ops
   unitary : Metrics.unitaryCount c = .ok (Spec.unitaryCount ops)
@@ -317,7 +318,8 @@ structure MetricsMeetSpec (c : Dag) (ops : List Op) : Prop where
     `L.map snd`.  No reference to how the circuit was made. -/
 theorem metrics_eq_spec_on_any_schedule {c : Dag} {P : Reg → List NodeId} {L : List (NodeId × Op)} (g : Good c P)
     (hpl : AllPlain c) (hS : Sched c P L) : MetricsMeetSpec c (L.map (·.2)) :=
-  { cnot := cnotCount_eq_spec_sched g hpl hS
+  { emitters := emitter_count_eq_inputs ⟨_, g⟩
+    cnot := cnotCount_eq_spec_sched g hpl hS
     measure := measureCount_eq_spec_sched g hpl hS
     unitary := unitaryCount_eq_spec_sched g hpl hS
     register_depth := calculateRegDepth_eq_spec_sched g hpl hS
